@@ -11,9 +11,10 @@ import oracles
 class Job:
     """one harness unit (parameter list + allocator kind) with its scripts"""
 
-    def __init__(self, L, K, scripts, statics=(), tag="", unit_text=None, cxx_extra=()):
+    def __init__(self, L, K, scripts, statics=(), tag="", unit_text=None, cxx_extra=(), skip_header=False):
         self.L, self.K, self.scripts, self.statics, self.tag = L, K, scripts, list(statics), tag
         self.unit_text, self.cxx_extra, self.exe = unit_text, list(cxx_extra), None
+        self.skip_header = skip_header      # units that are not instantiated for a parameter list
 
 
 K_DEFAULT = (0, 0, 0, 1, 0)     # like std::allocator: always equal, nothing propagates
@@ -266,6 +267,27 @@ class ElemFamily(Family):
         return jobs
 
 
+class ConstructFamily(Family):
+    """emplace_back from every source form for a catalogue of type pairs (C15)"""
+
+    def __init__(self, nscripts=3):
+        super().__init__()
+        self.nscripts = nscripts
+
+    def corpus(self, prop):
+        return []
+
+    def jobs(self, rng, tier):
+        import construct_gen as cg
+        mult = 1 if tier == "quick" else 8
+        jobs = []
+        for j, text in enumerate(cg.unit_texts()):
+            scripts, st = cg.gen_scripts(rng, j, self.nscripts * mult)
+            self.add_stats(st)
+            jobs.append(Job([], K_DEFAULT, scripts, tag="construct%d" % j, unit_text=text, skip_header=True))
+        return jobs
+
+
 class Multi(Family):
     def __init__(self, *fams):
         super().__init__()
@@ -379,3 +401,4 @@ FAMILIES["C13"] = CompareFamily()
 FAMILIES["C14"] = CompareFamily()
 FAMILIES["C11"] = ProxyFamily()
 FAMILIES["C12"] = ElemFamily()
+FAMILIES["C15"] = ConstructFamily()
